@@ -264,11 +264,7 @@ package fdo
 //@   modifies nothing
 
 // the service-info phase starts only after both attestations
-//@ func fdo.exchangeServiceInfo
-//@   nopaths
-//@   modifies nothing
-//@   requires @owner OwnerProven(u(sess))
-//@   requires @device DeviceProven(u(sess))
+// (contract of fdo.exchangeServiceInfo: see the C16 block at the end of this file)
 
 //@ func fdo.sendReadyServiceInfo
 //@   props C03 C10(sweep)
@@ -392,4 +388,94 @@ package fdo
 //@   props C08 C16 C10(sweep)
 //@   sweep bounds,panic,make
 //@   callsites NewProducer 1
+//@   callsites ProduceInfo 1
+//@   callsites NextModule 1
 //@   callassert NewProducer#1: @mtu u(arg1) == MtuOf(u(ctx))
+//@   callassert NewProducer#1: @name u(arg0) == u(moduleName)
+//@   callassert ProduceInfo#1: @args u(arg0) == u(module) && u(arg2) == u(producer)
+//@   callassert NextModule#1: @oncomplete complete
+//@   callassert SetDevmod#1: @complete arg4 == complete
+//@   ensures @done ? err == nil ==> result0 != nil && result0.IsDone == (ProducedComplete(u(module), u(producer)) && !MoreModulesAfter(u(s.Modules), u(ctx)))
+//@   ensures @more ? err == nil ==> result0.IsMoreServiceInfo == (ProducedBlock(u(module), u(producer)) && !ProducedComplete(u(module), u(producer)))
+//@   ensures @fits ? err == nil ==> size <= int64(mtu)
+//@   ensures @info ? err == nil ==> u(result0.ServiceInfo) == u(serviceInfo)
+
+// ---- TO2 service info: module dispatch and progression (C16) -----------------------------------
+// Device side: a module's Receive/Yield is reached only for a module whose active
+// flag (set by a previous "active" message) is true; the module handed over is
+// the one looked up under the name in front of the ':' of the key.
+//@ func fdo.handleOwnerModuleMessages
+//@   props C16 C10(sweep)
+//@   sweep bounds,panic,make,nilmem,div
+//@   callsites handleOwnerModuleMessage 1
+//@   callsites handleOwnerModuleYield 1
+//@   callsites handleActive 1
+//@   callassert handleOwnerModuleMessage#1: @active active
+//@   callassert handleOwnerModuleMessage#1: @module u(arg1) == u(mod) && u(arg2) == u(moduleName) && u(arg3) == u(messageName) && u(arg4) == u(messageBody) && u(arg5) == u(send)
+//@   callassert handleOwnerModuleYield#1: @active active
+//@   callassert handleOwnerModuleYield#1: @module u(arg1) == u(mod) && u(arg2) == u(prevModuleName) && u(arg3) == u(send)
+//@   callassert handleActive#1: @args arg0 == active && u(arg1) == u(mod) && u(arg2) == u(moduleName) && u(arg3) == u(messageBody) && u(arg4) == u(send)
+
+// handleActive: the reply "active" is sent only on a transition to active; an
+// unknown module other than devmod answers (and is recorded) inactive; a
+// deactivation or a repeated activation sends nothing; Transition is called
+// exactly when the flag changes.
+//@ func fdo.handleActive
+//@   props C16 C10(sweep)
+//@   sweep bounds,panic,make,nilmem,div
+//@   callsites NextServiceInfo 1
+//@   callsites Transition 1
+//@   callsites Encode 1
+//@   callassert NextServiceInfo#1: @onlynew !prevActive
+//@   callassert NextServiceInfo#1: @key u(arg1) == u(moduleName) && u(arg2) == u("active")
+//@   callassert Transition#1: @changed arg1 != prevActive
+//@   callassert Encode#1: @unknown dyntype(mod, "serviceinfo.UnknownModule") && moduleName != "devmod" ==> !active
+//@   callassert Encode#1: @value u(unwrap(arg1)) == u(active)
+//@   ensures @unknown err == nil && !prevActive && dyntype(mod, "serviceinfo.UnknownModule") && moduleName != "devmod" ==> !result0
+//@   ensures @reported ? err == nil ==> result0 == active
+
+// the drain check: a module that leaves bytes of a message unread is an error
+//@ func fdo.handleOwnerModuleMessage
+//@   props C16 C10(sweep)
+//@   sweep bounds,panic,make,nilmem,div
+//@   callsites Receive 1
+//@   callassert Receive#1: @args u(arg0) == u(mod) && u(arg2) == u(messageName) && u(arg3) == u(messageBody)
+//@   ensures @drained ? err == nil ==> n <= 0
+
+// Owner side.
+//@ func fdo.TO2Server.ownerServiceInfo
+//@   props C16 C08 C10(sweep,assert)
+//@   sweep bounds,panic,make,nilmem,div
+//@   callsites Module 1
+//@   callsites HandleInfo 1
+//@   callsites produceOwnerServiceInfo 1
+//@   callsites NewChunkInPipe 1
+//@   callassert Module#1: @devmoddone complete && err == nil
+//@   callassert NewChunkInPipe#1: @capacity arg0 >= len(deviceInfo.ServiceInfo)
+//@   callassert HandleInfo#1: @args u(arg0) == u(module) && u(arg2) == u(messageName) && u(arg3) == u(messageBody)
+//@   callassert produceOwnerServiceInfo#1: @unblocked !deviceInfo.IsMoreServiceInfo
+//@   callassert produceOwnerServiceInfo#1: @module u(arg2) == u(moduleName) && u(arg3) == u(module)
+//@   ensures @blocked ? err == nil && deviceInfo.IsMoreServiceInfo ==> result0 != nil && !result0.IsMoreServiceInfo && !result0.IsDone && len(result0.ServiceInfo) == 0
+
+// devmod on the owner side: complete only with a module list without gaps
+//@ func fdo.devmodOwnerModule.ProduceInfo
+//@   props C16 C10(sweep)
+//@   sweep bounds,panic,make,nilmem,div
+//@   modifies nothing
+//@   ensures @never_block !result0
+//@   ensures @complete result1 ==> err == nil && d.Modules != nil
+
+//@ func fdo.devmodOwnerModule.parseModules
+//@   props C16 C10(sweep)
+//@   sweep bounds,panic,make,nilmem,div
+
+// device side: Done is sent only after the owner reported IsDone
+//@ func fdo.exchangeServiceInfo
+//@   props C16 C10(sweep)
+//@   sweep bounds,panic,make
+//@   requires @owner OwnerProven(u(sess))
+//@   requires @device DeviceProven(u(sess))
+//@   callsites sendDone 2
+//@   callassert sendDone#1: @done done
+//@   callassert sendDone#2: @done done
+//@   callassert sendDone#*: @args u(arg2) == u(proveDvNonce) && u(arg3) == u(setupDvNonce) && u(arg4) == u(sess)
